@@ -245,7 +245,9 @@ func (g *SummaryGraph) SyncGlobals() {
 		for _, node := range nodeSet {
 			if node.IsWrite {
 				node.Global.addWriteLoc(node)
-			} else if len(node.out) > 0 {
+			} else if len(node.out) > 0 || len(node.marks) > 0 {
+				// A read location without successors is still relevant when it has marks: the instructions the
+				// data read from the global flows to must be checked by the analyses that use the loc-sets
 				node.Global.addReadLoc(node)
 			}
 		}
